@@ -452,7 +452,15 @@ impl<'a> Gen<'a> {
                 for (k, _) in &items {
                     self.shadow.maps[m].insert(*k);
                 }
-                Op::Extend { m: mu, items, by_ref: self.rng.chance(1, 3) }
+                let by_ref = self.rng.chance(1, 3);
+                let hint = if !by_ref && self.rng.chance(1, 3) { self.rng.range(1, 4) as u8 } else { 0 };
+                if hint == 3 {
+                    // the reservation fails: nothing is inserted
+                    for (k, _) in &items {
+                        let _ = k;
+                    }
+                }
+                Op::Extend { m: mu, items, by_ref, hint }
             }
             G::FromIter => {
                 let items = self.items(m, false);
@@ -617,7 +625,9 @@ impl<'a> Gen<'a> {
                 for k in &items {
                     self.shadow.sets[s].insert(*k);
                 }
-                Op::SExtend { s: su, items, by_ref: self.rng.chance(1, 3) }
+                let by_ref = self.rng.chance(1, 3);
+                let hint = if !by_ref && self.rng.chance(1, 3) { self.rng.range(1, 4) as u8 } else { 0 };
+                Op::SExtend { s: su, items, by_ref, hint }
             }
             G::SFromIter => {
                 let items: Vec<u32> = self.items(s, true).into_iter().map(|x| x.0).collect();
@@ -861,9 +871,9 @@ pub fn generate_c14(rng: &mut Rng) -> RunSpec {
             let style = rng.below(4); // 0: plain, 1: detours, 2: detours + capacity games, 3: extend
             if style == 3 && !order.is_empty() {
                 if set {
-                    ops.push(Op::SExtend { s: slot, items: order.iter().map(|x| x.0).collect(), by_ref: rng.chance(1, 2) });
+                    ops.push(Op::SExtend { s: slot, items: order.iter().map(|x| x.0).collect(), by_ref: rng.chance(1, 2), hint: 0 });
                 } else {
-                    ops.push(Op::Extend { m: slot, items: order.clone(), by_ref: rng.chance(1, 2) });
+                    ops.push(Op::Extend { m: slot, items: order.clone(), by_ref: rng.chance(1, 2), hint: 0 });
                 }
             } else {
                 for &(kv, p) in &order {
